@@ -2097,3 +2097,162 @@ Theorem C05_binary64_percentage_conversion_in_range :
   forall len : Z, len <= 2 ^ 63 -> SafeGis.perc_ok F64 XF64 len.
 Proof. exact @F64Laws.perc_ok_F64. Qed.
 Print Assumptions C05_binary64_percentage_conversion_in_range.
+
+(* ================================================================== *)
+(* no signed integer overflow (continued): c_crps, c_delineate_area,  *)
+(* c_delineate_river, c_delineate_flowpathlengths_in_catchment        *)
+(* ================================================================== *)
+From Coq Require Import String Lia PrimFloat.
+From Hy Require Import Base.Num Base.MiniC Gen.KernelsAst Gen.Consts Gen.KernelsAstChk Gen.ConstsC03 Model.Grid Model.Catchment Model.Crps.
+From Hy Require Proofs.ChkCrps Proofs.ChkCatchment.
+Import ListNotations.
+Open Scope string_scope.
+Open Scope list_scope.
+Open Scope Z_scope.
+
+(* c_crps on program_chk: nval is a C int; the table index ncol*7+6 and the sim index ncol*i+j are formed in int: ncol*nval <= 2^31 *)
+Theorem C05_nooverflow_crps :
+  forall (T : Type) (N : NumOps T) (X : NumLit T) (uw isrt : Z) (v : list (T * list T))
+         (m : nat) (wv rt0 : list T) (n : nat),
+       RefineCrps.lits_ok N X ->
+       uw <> 1 ->
+       v <> [] ->
+       (0 < m)%nat ->
+       Forall (fun r : T * list T => Datatypes.length (snd r) = m) v ->
+       Datatypes.length rt0 = (7 * S m)%nat ->
+       (Nat.max (Datatypes.length v) (S m) < n)%nat ->
+       Z.of_nat (Datatypes.length v) <= 2147483647 ->
+       Z.of_nat m * 7 + 6 <= 2147483647 ->
+       Z.of_nat m * Z.of_nat (Datatypes.length v) - 1 <= 2147483647 ->
+       match RefineCrps.crps_with N isrt v with
+       | Some out =>
+           exec_fun N X program_chk (S n) "c_crps" (RefineCrps.crps_args N uw isrt v m wv rt0) =
+           Ok
+             (RI 0,
+              [VArrF (map fst v); VArrF (List.concat (map snd v)); VArrF wv;
+               VArrF (RefineCrps.table_vals (o_table out)); VArrF (RefineCrps.dec_vals out)])
+       | None =>
+           exists code : Z,
+             0 < code /\
+             exec_fun N X program_chk (S n) "c_crps" (RefineCrps.crps_args N uw isrt v m wv rt0) =
+             Ok
+               (RI code,
+                [VArrF (map fst v); VArrF (List.concat (map snd v)); VArrF wv; 
+                 VArrF rt0; VArrF [n0 N; n0 N; n0 N; n0 N; n0 N]])
+       end.
+Proof. exact @ChkCrps.chk_refine_c_crps_all. Qed.
+Print Assumptions C05_nooverflow_crps.
+
+(* necessity (an ensemble array of 2^31 doubles: 16 GiB) *)
+Theorem C05_overflow_crps_sim_index :
+  forall (T : Type) (N : NumOps T) (X : NumLit T) (uw isrt : Z) (v : list (T * list T))
+         (m : nat) (wv rt0 : list T) (n K : nat),
+       RefineCrps.lits_ok N X ->
+       uw <> 1 ->
+       (0 < m)%nat ->
+       Forall (fun r : T * list T => Datatypes.length (snd r) = m) v ->
+       (Nat.max (Datatypes.length v) (S m) < n)%nat ->
+       Z.of_nat m + 1 <= 2147483647 ->
+       (K < Datatypes.length v)%nat ->
+       Z.of_nat K <= 2147483647 ->
+       Z.of_nat m * Z.of_nat K = 2147483648 ->
+       existsb (fun r : T * list T => unsorted N (snd r)) (RefineCrps.sortedv N isrt v) = false ->
+       exec_fun N X program_chk (S n) "c_crps" (RefineCrps.crps_args N uw isrt v m wv rt0) =
+       Err (Overflow true 2147483648).
+Proof. exact @ChkCrps.overflow_c_crps_sim_index. Qed.
+Print Assumptions C05_overflow_crps_sim_index.
+
+Theorem C05_nooverflow_delineate_area :
+  forall (T : Type) (N : NumOps T) (X : NumLit T) (nrows ncols : Z) 
+         (fd : list Z) (outlet : Z) (inlets area0 b10 b20 : list Z) (n : nat),
+       0 <= ncols ->
+       Z.of_nat (Datatypes.length fd) = nrows * ncols ->
+       Datatypes.length b10 = Datatypes.length area0 ->
+       Datatypes.length b20 = Datatypes.length area0 ->
+       nrows * ncols <= 9223372036854775807 ->
+       Z.of_nat (Datatypes.length inlets) <= 9223372036854775807 ->
+       Z.of_nat (Datatypes.length area0) <= 9223372036854775807 ->
+       (Datatypes.length inlets < n)%nat ->
+       (Datatypes.length area0 < n)%nat ->
+       (13 < n)%nat ->
+       match delineate_area nrows ncols fd outlet inlets (Z.of_nat (Datatypes.length area0)) with
+       | DErr =>
+           exists (code : Z) (a b1 b2 : list Z),
+             0 < code /\
+             ChkCatchment.chk_da_call N X n nrows ncols fd outlet inlets area0 b10 b20 =
+             Ok (RI code, [VArrI FLOWDIRCODE; VArrI fd; VArrI inlets; VArrI a; VArrI b1; VArrI b2]) /\
+             (RefineArea.da_rejected nrows ncols outlet (Z.of_nat (Datatypes.length area0)) inlets =
+              true -> a = area0 /\ b1 = b10 /\ b2 = b20)
+       | DFuel => False
+       | DOk res =>
+           ChkCatchment.chk_da_call N X n nrows ncols fd outlet inlets area0 b10 b20 =
+           Ok
+             (RI 0,
+              [VArrI FLOWDIRCODE; VArrI fd; VArrI inlets;
+               VArrI (res ++ skipn (Datatypes.length res) area0);
+               VArrI
+                 (fst
+                    (RefineArea.area_bufs nrows ncols outlet (Z.of_nat (Datatypes.length area0)) fd
+                       inlets b10 b20));
+               VArrI
+                 (snd
+                    (RefineArea.area_bufs nrows ncols outlet (Z.of_nat (Datatypes.length area0)) fd
+                       inlets b10 b20))])
+       end.
+Proof. exact @ChkCatchment.chk_refine_c_delineate_area. Qed.
+Print Assumptions C05_nooverflow_delineate_area.
+
+Theorem C05_nooverflow_delineate_river :
+  forall (T : Type) (N : NumOps T) (X : NumLit T) (nrows ncols : Z) 
+         (xll yll csz : T) (fd : list Z) (start np0 : Z) (cjunk : list Z) 
+         (djunk : list T) (n : nat),
+       nofZ N 0 = n0 N ->
+       nlit X 0.5 1 2 = nhalf N ->
+       nrows * ncols <= Z.of_nat (Datatypes.length fd) ->
+       Datatypes.length djunk = (5 * Datatypes.length cjunk)%nat ->
+       (0 <= start ->
+        -9223372036854775808 <= nrows * ncols - 1 /\ nrows * ncols + 1 <= 9223372036854775807) ->
+       5 * MiniC.zlen cjunk - 1 <= 9223372036854775807 ->
+       (Nat.max (Datatypes.length cjunk) 12 < n)%nat ->
+       match river N nrows ncols xll yll csz fd start (MiniC.zlen cjunk) with
+       | Some rows =>
+           exec_fun N X program_chk (S n) "c_delineate_river"
+             [AVI nrows; AVI ncols; AVF xll; AVF yll; AVF csz; AVArrI FLOWDIRCODE; 
+              AVArrI fd; AVI start; AVI (MiniC.zlen cjunk); AVArrI [np0]; 
+              AVArrI cjunk; AVArrF djunk] =
+           Ok
+             (RI 0,
+              [VArrI FLOWDIRCODE; VArrI fd; VArrI [Z.of_nat (Datatypes.length rows)];
+               VArrI (map RefineRiver.rv_cell rows ++ skipn (Datatypes.length rows) cjunk);
+               VArrF (flat_map RefineRiver.rv_data rows ++ skipn (5 * Datatypes.length rows) djunk)])
+       | None =>
+           exists code : Z,
+             0 < code /\
+             exec_fun N X program_chk (S n) "c_delineate_river"
+               [AVI nrows; AVI ncols; AVF xll; AVF yll; AVF csz; AVArrI FLOWDIRCODE; 
+                AVArrI fd; AVI start; AVI (MiniC.zlen cjunk); AVArrI [np0]; 
+                AVArrI cjunk; AVArrF djunk] =
+             Ok (RI code, [VArrI FLOWDIRCODE; VArrI fd; VArrI [np0]; VArrI cjunk; VArrF djunk])
+       end.
+Proof. exact @ChkCatchment.chk_refine_delineate_river. Qed.
+Print Assumptions C05_nooverflow_delineate_river.
+
+Theorem C05_nooverflow_flowpathlengths :
+  forall (T : Type) (N : NumOps T) (X : NumLit T) (nrows ncols : Z) 
+         (fd area : list Z) (outlet : Z) (junk : list T) (n : nat),
+       nofZ N 0 = n0 N ->
+       nrows * ncols <= Z.of_nat (Datatypes.length fd) ->
+       Datatypes.length junk = (3 * Datatypes.length area)%nat ->
+       ((exists c : Z, In c area /\ 0 <= c) ->
+        -9223372036854775808 <= nrows * ncols <= 9223372036854775807) ->
+       3 * MiniC.zlen area - 1 <= 9223372036854775807 ->
+       (Nat.max (Datatypes.length area) 12 < n)%nat ->
+       exec_fun N X program_chk (S n) "c_delineate_flowpathlengths_in_catchment"
+         [AVI nrows; AVI ncols; AVArrI FLOWDIRCODE; AVArrI fd; AVI (MiniC.zlen area); 
+          AVArrI area; AVI outlet; AVArrF junk] =
+       Ok
+         (RI 0,
+          [VArrI FLOWDIRCODE; VArrI fd; VArrI area;
+           VArrF (RefineRiver.fp_flat N (flowpaths N nrows ncols fd outlet area))]).
+Proof. exact @ChkCatchment.chk_refine_delineate_flowpathlengths_in_catchment. Qed.
+Print Assumptions C05_nooverflow_flowpathlengths.
